@@ -1792,6 +1792,201 @@ def check_complete_or_raise(ck):
                   fa.where(faults[0][0]) if faults else fa.where(c))
 
 
+# ---- R8: a damaged pointer cannot raise a decoding error --------------------------------------------------------------
+TOLERANT_ERRORS = {"replace", "ignore", "surrogateescape", "backslashreplace"}      # error handlers under which DEcoding never raises
+TOTAL_ENCODINGS = {"latin-1", "latin1", "latin_1", "iso-8859-1", "iso8859-1", "l1", "cp437"}   # every byte string decodes
+DECODE_ERROR_NAMES = {"UnicodeDecodeError", "UnicodeError", "ValueError", "Exception", "BaseException"}
+_HANDLE_READS = ("read", "readline", "readlines", "readall", "__next__")
+
+
+def _const_text(fa, e, at):
+    """The string constant `e` stands for (a literal, a local bound to one, a module / class constant), or None."""
+    if e is None:
+        return None
+    if A.const_str(e) is not None:
+        return A.const_str(e)
+    try:
+        x = fa.expand(e, at)
+    except Exception:  # noqa - an expression the expander cannot place
+        x = e
+    if A.const_str(x) is not None:
+        return A.const_str(x)
+    nm = x.id if isinstance(x, ast.Name) else (x.attr if isinstance(x, ast.Attribute) and isinstance(x.value, ast.Name) and x.value.id in ("self", "cls") else None)
+    if nm is not None and not (isinstance(x, ast.Name) and fa.df.is_local(nm)):
+        v = fa.fi.module.assigns.get(nm)
+        if v is None and fa.fi.cls is not None:
+            for st in fa.fi.cls.node.body:
+                if isinstance(st, ast.Assign) and any(isinstance(t, ast.Name) and t.id == nm for t in st.targets):
+                    v = st.value
+        return A.const_str(v) if v is not None else None
+    return None
+
+
+def _is_path_method(c):
+    return isinstance(c.func, ast.Attribute) and (A.dotted(c.func.value) or "") not in ("io", "os", "builtins", "codecs")
+
+
+def _pointer_reads(ck, fa):
+    """Read sites of a pointer file in one function: [(call, 'text' | 'bytes', errors expr or None, encoding expr or None)]."""
+    out = []
+    for c in fa.calls():
+        if not fa.nodes(c):
+            continue
+        nm = A.call_attr(c)
+        at = fa.nodes(c)[0]
+        if nm == "open":
+            pm_ = _is_path_method(c)
+            if (A.call_dotted(c) or "") == "os.open":
+                continue
+            mode = A.arg_or_kw(c, 0 if pm_ else 1, "mode")
+            m = _const_text(fa, mode, at) if mode is not None else "r"
+            if m is not None and any(ch in m for ch in "wax+"):
+                continue
+            is_codecs = (A.call_dotted(c) or "").startswith("codecs.")
+            enc = A.arg_or_kw(c, 2 if (pm_ or is_codecs) else 3, "encoding")
+            err = A.arg_or_kw(c, 3 if (pm_ or is_codecs) else 4, "errors")
+            kind = "bytes" if (m is not None and "b" in m and not (is_codecs and enc is not None)) else "text"
+            path = open_path(c)
+        elif nm == "read_text" and isinstance(c.func, ast.Attribute):
+            kind, enc, err, path = "text", A.arg_or_kw(c, 0, "encoding"), A.arg_or_kw(c, 1, "errors"), c.func.value
+        elif nm == "read_bytes" and isinstance(c.func, ast.Attribute):
+            kind, enc, err, path = "bytes", None, None, c.func.value
+        elif nm == "FileIO" and not _fileio_writes(c):
+            kind, enc, err, path = "bytes", None, None, (c.args[0] if c.args else A.kwarg(c, "file"))
+        else:
+            continue
+        if path is not None and path_role(fa, path, at) == "pointer":
+            out.append((c, kind, err, enc))
+    return out
+
+
+def _decoders(fa):
+    """Calls that turn bytes into text: [(call, errors expr or None, encoding expr or None)]; os.fsdecode never raises on POSIX
+    (surrogateescape) and is not listed."""
+    out = []
+    for c in fa.calls():
+        if not fa.nodes(c):
+            continue
+        nm = A.call_attr(c)
+        d = A.call_dotted(c) or ""
+        if nm == "decode" and isinstance(c.func, ast.Attribute) and not d.startswith("codecs."):
+            out.append((c, A.arg_or_kw(c, 1, "errors"), A.arg_or_kw(c, 0, "encoding")))
+        elif d == "codecs.decode":
+            out.append((c, A.arg_or_kw(c, 2, "errors"), A.arg_or_kw(c, 1, "encoding")))
+        elif isinstance(c.func, ast.Name) and c.func.id == "str" and (len(c.args) >= 2 or A.kwarg(c, "encoding") is not None or A.kwarg(c, "errors") is not None):
+            out.append((c, A.arg_or_kw(c, 2, "errors"), A.arg_or_kw(c, 1, "encoding")))
+        elif nm == "TextIOWrapper":
+            out.append((c, A.arg_or_kw(c, 2, "errors"), A.arg_or_kw(c, 1, "encoding")))
+    return out
+
+
+def _tolerant(fa, call, err, enc) -> bool:
+    at = fa.nodes(call)[0]
+    e = _const_text(fa, err, at) if err is not None else None
+    if e is not None and e.lower() in TOLERANT_ERRORS:
+        return True
+    n = _const_text(fa, enc, at) if enc is not None else None
+    return n is not None and n.lower().replace(" ", "") in TOTAL_ENCODINGS
+
+
+def _decode_error_absorbed(ck, fa, node) -> bool:
+    """`node` runs inside a try whose first handler matching UnicodeDecodeError does not let it (or another non-I/O error) out."""
+    for t in _try_around(fa, node):
+        for h in t.handlers:
+            ts = [] if h.type is None else (h.type.elts if isinstance(h.type, ast.Tuple) else [h.type])
+            names = [A.norm(x).split(".")[-1] for x in ts]
+            if h.type is not None and not any(n in DECODE_ERROR_NAMES for n in names):
+                continue
+            ok = True
+            for st in ast.walk(h):
+                if isinstance(st, ast.Raise):
+                    exc = st.exc.func if isinstance(st.exc, ast.Call) else st.exc
+                    if exc is None or not _is_oserror_class(ck, (A.norm(exc) or "").split(".")[-1]):
+                        ok = False
+            return ok        # the first matching handler decides
+    return False
+
+
+def _handle_read_calls(fa, opencall):
+    """Where the text of a handle opened by `opencall` is actually decoded: the read calls / iterations on the handle."""
+    names = set()
+    p = fa.pm.get(opencall)
+    if isinstance(p, ast.withitem) and isinstance(p.optional_vars, ast.Name):
+        names.add(p.optional_vars.id)
+    st = fa.stmt_of(opencall)
+    if isinstance(st, ast.Assign) and st.value is opencall:
+        names |= {t.id for t in st.targets if isinstance(t, ast.Name)}
+    out = []
+    for c in fa.calls():
+        rv = A.call_recv(c)
+        if A.call_attr(c) in _HANDLE_READS and isinstance(rv, ast.Name) and rv.id in names and fa.nodes(c):
+            out.append(c)
+        elif isinstance(c.func, ast.Name) and c.func.id in ("next", "list", "tuple", "sorted") and c.args and isinstance(c.args[0], ast.Name) and c.args[0].id in names and fa.nodes(c):
+            out.append(c)
+    for f in fa.stmts(ast.For):
+        if isinstance(f.iter, ast.Name) and f.iter.id in names:
+            out.append(f)
+    return out
+
+
+def _protected(ck, fa, points, depth=2) -> bool:
+    """Every point is inside an absorbing try here, or every call of this function (inside the storage layer) is."""
+    if points and all(_decode_error_absorbed(ck, fa, p_) for p_ in points):
+        return True
+    if depth <= 0:
+        return False
+    sites = ck.cg.call_sites_of(lambda call, cands: any(f.qual == fa.qual for f in cands))
+    sites = [(fi, call) for (fi, call, _c) in sites if fi.qual != fa.qual]
+    if not sites:
+        return False
+    for (fi, call) in sites:
+        f2 = FA(ck, fi)
+        if not f2.nodes(call) or not _protected(ck, f2, [call], depth - 1):
+            return False
+    return True
+
+
+def check_pointer_decoding(ck):
+    R = "C08.R8"
+    ck.rule(R, "a pointer file cut short inside a multi-byte character reads as a pointer that designates nothing: wherever the "
+               "filesystem data source reads a pointer back as text, undecodable bytes cannot raise (tolerant errors= policy on the "
+               "open / the decode, or the decoding error is caught)", 1)
+    mod = ck.repo.module("storage_filesystem")
+    funcs = [m for c in mod.all_classes() for m in c.methods.values()] + list(getattr(mod, "functions", {}).values())
+    found = 0
+    for fi in funcs:
+        src = ast.dump(fi.node)
+        if "open" not in src and "read_" not in src and "FileIO" not in src:
+            continue
+        fa = FA(ck, fi)
+        reads = _pointer_reads(ck, fa)
+        for (c, kind, err, enc) in reads:
+            found += 1
+            if kind == "text":
+                ok = _tolerant(fa, c, err, enc) or _protected(ck, fa, _handle_read_calls(fa, c) or [c])
+                why = "opened as text with strict decoding"
+            else:
+                decs = _decoders(fa)
+                holder = fa
+                if not decs:
+                    # the bytes leave this function undecoded: they become text in its callers
+                    for (fi2, _call, _c) in ck.cg.call_sites_of(lambda call, cands: any(f.qual == fa.qual for f in cands)):
+                        f2 = FA(ck, fi2)
+                        if _decoders(f2):
+                            holder, decs = f2, _decoders(f2)
+                            break
+                fsdec = [k for k in fa.calls("fsdecode") if fa.nodes(k)]
+                ck.need(decs or fsdec, "%s reads a pointer file as bytes, but where those bytes become a path cannot be found" % fa.qual)
+                ok = all(_tolerant(holder, d, e_, n_) or _protected(ck, holder, [d]) for (d, e_, n_) in decs)
+                why = "read as bytes and decoded strictly"
+            ck.ob(R, fa.key(c, "undecodable-pointer-cannot-raise"), ok,
+                  "a pointer with undecodable bytes reads as a path that does not exist" if ok else
+                  "the pointer file is %s and nothing catches the error: a link truncated in the middle of a multi-byte character (non-ASCII "
+                  "store path or key, crash or ENOSPC during the link write) raises UnicodeDecodeError -- a ValueError, which none of the "
+                  "I/O fallbacks absorb -- so every later call of the function raises and it is never memoized again" % why, fa.where(c))
+    ck.need(found, "the filesystem data source never reads a pointer file back: cannot place the pointer readers")
+
+
 def check(ck):
     from .memo import check_new_memo_tables
     ck.run(check_new_memo_tables, ck, "C08.M1", ('storage_base', 'storage_filesystem'))
@@ -1803,4 +1998,5 @@ def check(ck):
     ck.run(check_recovery, ck)
     ck.run(check_readers_validate, ck)
     ck.run(check_complete_or_raise, ck)
+    ck.run(check_pointer_decoding, ck)
     ck.run(check_attempt_not_remembered, ck)
